@@ -37,6 +37,10 @@ TINY = [
     {"name": "early_break_consumer", "pre": [], "pubs": [[["jobs.a", 0], ["jobs.a", 1], ["jobs.a", 2]]], "subs": [{"pat": "jobs.a", "take": 1}]},
     # fnmatch character classes; one channel is literally named like the pattern
     {"name": "char_class_pattern", "pre": ["jobs.a", "jobs.[ab]"], "pubs": [[["jobs.b", 0], ["jobs.c", 0]]], "subs": ["jobs.[ab]"]},
+    # another thread closes the subscription while its consumer iterates (how a callback-style subscription is stopped)
+    {"name": "close_from_other_thread", "pre": ["jobs.a"], "pubs": [[["jobs.a", 0], ["jobs.a", 1]]], "subs": ["jobs.a"], "closers": [0]},
+    # a single-* pattern whose literal prefix and suffix overlap, and a channel that is exactly the overlap
+    {"name": "star_pattern_overlap", "pre": ["jobs.cfg"], "pubs": [[["jobs.a.cfg", 0], ["jobs.cfg", 0]]], "subs": ["jobs.*.cfg"]},
     {"name": "2pub_two_new_channels", "pre": [], "pubs": [[["jobs.a", 0], ["jobs.b", 1]], [["jobs.b", 0], ["jobs.a", 1]]], "subs": []},
 ]
 
@@ -60,16 +64,21 @@ def run_schedule(scn: Dict[str, Any], choices: List[int]) -> Dict[str, Any]:
                     transport.publish(ch, {"ch": ch, "pub": pi, "seq": seq}, {})
             fns.append(pub)
             published += [{"ch": ch, "pub": pi, "seq": seq} for ch, seq in msgs]
+        sub_objs = [transport.subscribe(_pat(spec)) for spec in scn.get("subs", [])]
         for si, spec in enumerate(scn.get("subs", [])):
             def sub(si=si, spec=spec):
                 pat, take = _pat(spec), (None if isinstance(spec, str) else spec.get("take"))
-                it = transport.subscribe(pat)
+                it = sub_objs[si]
                 for msg in it:
                     received[si].append(msg.data)
                     if take is not None and len(received[si]) >= take:
                         break  # the consumer leaves early and closes its subscription
                 it.close()
             fns.append(sub)
+        for si in scn.get("closers", []):
+            def closer(si=si):
+                sub_objs[si].close()
+            fns.append(closer)
         sched.run(fns)
         late: List[List[Dict[str, Any]]] = []
         drained = []
@@ -152,7 +161,7 @@ def enumerate_scenario(scn: Dict[str, Any], bound: int, col: Collector, cap: int
 
 @st.composite
 def c14_case(draw):
-    chans = ["jobs.a", "jobs.b", "other.c", "jobs.ab", "jobs.a.cfg", "jobs.[ab]"]
+    chans = ["jobs.a", "jobs.b", "other.c", "jobs.ab", "jobs.a.cfg", "jobs.[ab]", "jobs.cfg"]
     pre = draw(st.lists(st.sampled_from(chans), max_size=2, unique=True))
     npubs = draw(st.integers(2, 3))
     pubs = []
@@ -171,7 +180,8 @@ def c14_case(draw):
     # bias towards few preemptions: most decision points keep the current thread
     mask = draw(st.lists(st.integers(0, 5), min_size=len(choices), max_size=len(choices)))
     choices = [c if m == 0 else 0 for c, m in zip(choices, mask)]
-    return {"scenario": {"name": "generated", "pre": pre, "pubs": pubs, "subs": subs}, "choices": choices}
+    closers = [0] if draw(st.sampled_from([False, False, False, True])) else []
+    return {"scenario": {"name": "generated", "pre": pre, "pubs": pubs, "subs": subs, "closers": closers}, "choices": choices}
 
 
 def check_case(case: Dict[str, Any], col: Collector, family: str = "random") -> None:
@@ -183,7 +193,7 @@ def plan(tier: str, seed: int, scale: float = 1.0) -> List[Dict[str, Any]]:
     bound = 2 if tier == "quick" else 3
     specs: List[Dict[str, Any]] = []
     for i, scn in enumerate(TINY):
-        nthreads = len(scn["pubs"]) + len(scn["subs"])
+        nthreads = len(scn["pubs"]) + len(scn["subs"]) + len(scn.get("closers", []))
         heavy = nthreads >= 3 or sum(len(m) for m in scn["pubs"]) >= 4
         specs.append({"kind": "exhaustive", "scenario": i, "bound": bound - 1 if heavy else bound, "timeout": 3000})
     nshards, n = (11, 600) if tier == "quick" else (27, 5000)
